@@ -64,6 +64,11 @@ Run ==
         /\ Check("C09", "closed-under-reference", \A m \in modules : p.mods[m].reparse => p.mods[m].dangling = <<>>, "F22",
                  \A m \in modules : p.mods[m].reparse => SeqToSet(p.mods[m].dangling) \subseteq SeqToSet(p.mods[m].defaultIfaces),
                  { <<m, p.mods[m].dangling>> : m \in { x \in modules : p.mods[x].reparse /\ p.mods[x].dangling # <<>> } })
+        \* ... per namespace: `typeof N` needs a value N, a type reference N needs a type N (a name may be declared in both)
+        /\ Check("C09", "closed-under-reference-per-namespace", \A m \in modules : (p.mods[m].reparse /\ "nsDangling" \in DOMAIN p.mods[m]) => p.mods[m].nsDangling = <<>>,
+                 "-", FALSE, { <<m, p.mods[m].nsDangling>> : m \in { x \in modules : p.mods[x].reparse /\ "nsDangling" \in DOMAIN p.mods[x] /\ p.mods[x].nsDangling # <<>> } })
+        /\ Check("C11", "referenced-declarations-kept-per-namespace", \A m \in modules : (p.mods[m].reparse /\ "nsDangling" \in DOMAIN p.mods[m]) => p.mods[m].nsDangling = <<>>,
+                 "-", FALSE, { <<m, p.mods[m].nsDangling>> : m \in { x \in modules : p.mods[x].reparse /\ "nsDangling" \in DOMAIN p.mods[x] /\ p.mods[x].nsDangling # <<>> } })
         /\ Check("C09", "imported-names-exported-by-emitted-counterpart",
                  \A m \in modules : (p.mods[m].reparse /\ "missingImports" \in DOMAIN p.mods[m]) => p.mods[m].missingImports = <<>>, "-", FALSE,
                  { <<m, p.mods[m].missingImports>> : m \in { x \in modules : p.mods[x].reparse /\ "missingImports" \in DOMAIN p.mods[x] /\ p.mods[x].missingImports # <<>> } })
